@@ -702,6 +702,29 @@ func (e *Env) call(x *ECall) Val {
 			return v
 		}
 		return Val{T: c.box(v.T, v.GT)}
+	case "addr":
+		// addr(p.f): address of field f of the object p points to (e.g. an embedded mutex)
+		sel, ok := x.Args[0].(*ESel)
+		if !ok {
+			efail("addr() expects p.field")
+		}
+		pv := e.eval(sel.X)
+		if pv.GT == nil {
+			efail("addr(): receiver without Go type")
+		}
+		pt, ok := pv.GT.Underlying().(*types.Pointer)
+		if !ok {
+			efail("addr(): %s is not a pointer", sel.X)
+		}
+		st, ok := pt.Elem().Underlying().(*types.Struct)
+		if !ok {
+			efail("addr(): not a struct pointer")
+		}
+		idx, ft, path := findField(st, sel.Name)
+		if idx < 0 || len(path) != 1 {
+			efail("addr(): no direct field %s", sel.Name)
+		}
+		return Val{T: c.fieldAddr(pv.T, c.fieldComp(pt.Elem(), idx)), GT: types.NewPointer(ft)}
 	case "arr":
 		// identity of the backing array of a slice
 		v := e.eval(x.Args[0])
